@@ -21,6 +21,7 @@ var c07Exprs = []string{
 	"sum(longs)", "longs[0] + longs[1]", "sort(longs)", "max(longs) == `323456789012345678`", "longs[*] | [?@ > `200000000000000000`]", "to_number('123456789012345678901') + longs[2]",
 	"a[*].[$.b, d]", "map(&$.n, arr)", "arr[?k == $.n || g == $.b]", "map(&[$.s, @.k], arr)", "sort(`[3,1,2,7,5,4,6,0,9,8,11,10,13,12]`)",
 	"nested[:2][]", "nested[::2][]", "nested[]", "[nested[0], strs][]", "nested[*][1:]", "reverse(nested[0])", "sort(nested[0])", "join('-', strs)", "join(s, strs)", "to_string(nested)", "merge(o, o)", "zip(nested[0], strs)",
+	"let $l = n in arr[?let $s = `10` in k * $s > $l].g", "let $l = b in a[*].[let $s = `1`, $t = 'x' in [$s, $l, $t]]", c07OrChain(300),
 	"let $v = b in a[*].[$v, d, $v]", "let $v = n in arr[*].[$v + k, $v]", "pad_left(s, wide)", "pad_right(s, wide)", "pad_left(b, wide) | length(@)",
 	"n + n * n", "sum(nums) / length(nums)", "arr[*].k | sort(@)", "o.* | sort(@)", "max_by(arr, &k).g", "not_null(missing, a, b)", "join(',', strs)", "split(s, ',')", "a == a && o == o", "[a, b][].b",
 }
@@ -45,6 +46,11 @@ func spare(v any) any {
 		}
 	}
 	return v
+}
+
+// c07OrChain: an evaluation as deep as the chain is long (n operands, all missing but the last).
+func c07OrChain(n int) string {
+	return strings.Repeat("missing || ", n-1) + "b"
 }
 
 func c07DocA() any {
@@ -205,7 +211,7 @@ func init() {
 		Title: "compiled expressions and Search are safe for concurrent use",
 		Rule: "2 (thorough: also 3) goroutines call Expression.Search / Search / Compile concurrently on one shared compiled Expression and shared read-only documents (arrays with spare capacity holding sentinels), the same expression or two different ones that start from the same part of a document, " +
 			"from a fresh state and after the expression has failed half-way on a third document; the library yields at every function entry, every loop iteration and every operation on a sync type (sync.Mutex, RWMutex, Once, Pool and Map are replaced by scheduler-aware models: a lock wait is a blocked task, all tasks blocked is a deadlock), and the explorer decides which goroutine runs between two yields; " +
-			"quick: every schedule with at most 2 preemptions (iterative bounding 0, 1, 2; 1 for calls of more than 150 steps); thorough: every reachable scheduler state (vector of yield counts, with state-key pruning) for 2 goroutines when the library keeps no state, else bound 3; " +
+			"quick: every schedule with at most 2 preemptions (iterative bounding 0, 1, 2; 1 for executions of more than 100 steps; for executions of more than 400 steps a preemption is tried at every 8th yield point only); thorough: every reachable scheduler state (vector of yield counts, with state-key pruning) for 2 goroutines when the library keeps no state, else bound 3; " +
 			"every execution starts from the package-level state the process had before its first library call (saved and restored by deep copy); in every state the hash of everything shared (AST behind the Expression, the documents incl. hidden capacity, and - when the library uses no sync primitive - every package-level variable) must equal its initial value, and at the end every call's outcome must equal its solo outcome; " +
 			"a second phase runs the same scenario bodies free-running under the race detector; non-trivial = a schedule with at least one context switch; distinct_nontrivial counts distinct schedules among them",
 		Phases: []core.Phase{{Name: "schedules", Build: "instr", Fn: c07Run}, {Name: "race-detector", Build: "race", Procs: 4, Fn: c07RunRace, CrashIsViolation: true}},
@@ -359,13 +365,16 @@ func c07Run(r *core.Run) {
 				b = 0
 			} else if r.Thorough() {
 				b = 3
-			} else if len(x1.Steps) > 150 {
+			} else if len(x1.Steps) > 100 {
 				// long calls: the number of schedules with two preemptions grows with the square of the yield
 				// points; the quick tier keeps them to one preemption (the thorough tier explores every state)
 				b = 1
 				r.Add("scenarios_explored_with_preemption_bound_1", 1)
 			}
 			c07Bounded(r, sc, want, b)
+		}
+		if os.Getenv("VERIF_C07_DEBUG") != "" {
+			fmt.Fprintf(os.Stderr, "C07DEBUG %d transitions so far, steps=%d %q %v %v\n", r.C["transitions"], len(x1.Steps), trunc(sc.Expr, 40), sc.Calls, sc.Pre)
 		}
 		r.Sample(func() any {
 			return map[string]any{"expr": sc.Expr, "calls": sc.Calls, "default_schedule": x1.Trace(), "yield_points": len(x1.Steps)}
@@ -451,6 +460,9 @@ func c07Bounded(r *core.Run, sc c07Scenario, want []core.Obs, bound int) {
 			return
 		}
 		for i := len(prefix); i < len(x.Steps); i++ {
+			if len(x.Steps) > 400 && i%8 != 0 {
+				continue // very long calls: a preemption is tried at every 8th yield point only (stated in the rule)
+			}
 			s := x.Steps[i]
 			cost := x.PreemptionsBefore(i)
 			for alt := 1; alt < len(s.Enabled); alt++ {
